@@ -3,3 +3,5 @@ import Fix8Model.Props.C08
 import Fix8Model.Props.C09
 import Fix8Model.Props.C10
 import Fix8Model.Props.C12
+import Fix8Model.Props.C26
+import Fix8Model.Props.C27
